@@ -54,7 +54,9 @@ Compatible(a, m) == IF m = "ex" THEN \A h \in holders : h[1] = a ELSE \A h \in h
 
 NextOp(a) == /\ pc[a] = "next" /\ ip[a] < Len(prog[a])
              /\ ip' = [ip EXCEPT ![a] = @ + 1]
-             /\ pc' = [pc EXCEPT ![a] = IF prog[a][ip[a] + 1].op = "mutex" THEN "m_open" ELSE "open"]
+             \* Mutex.Lock, and holders of a second file (modes "cf" / "wf": Create / Edit of a FIFO, whose truncation
+             \* fails and is tolerated), are exclusive holders of a lock domain of their own
+             /\ pc' = [pc EXCEPT ![a] = IF prog[a][ip[a] + 1].op = "mutex" \/ prog[a][ip[a] + 1].mode \in {"cf", "wf"} THEN "m_open" ELSE "open"]
              /\ loc' = [loc EXCEPT ![a] = NoLoc]
              /\ UNCHANGED <<prog, content, exists, holders, mheld, faults, hist>>
 
